@@ -60,6 +60,21 @@ Theorem C02_wait_defers_parsing :
 Proof. intros. apply wait_defers_handle_data; assumption. Qed.
 Print Assumptions C02_wait_defers_parsing.
 
+(* (6) the upgrade hand-over: on the client connection of a 101 / CONNECT-200 exchange, send(ResponseEndOfMessage) itself
+   makes the connection a tunnel and in the same activation emits the bytes the client pipelined behind its request
+   (they were only buffered while the state was wait, (5)).  So the sender of that event must be able to take tunnel data
+   before it sends it: HttpStream.flow_done installs and starts the websocket / tcp child layer first.  (HttpStream itself
+   is not modelled: that it does so is checked by the upg oracle on the real HttpLayer.) *)
+Theorem C02_upgrade_end_of_message_flushes :
+  forall Req Resp sh ch ic af tr (c : conn Req Resp) b sid rq rs last half y ys,
+  c_role c = Server -> c_sid c = Some sid -> c_request c = Some rq -> c_response c = Some rs ->
+  c_request_done c = true -> af Server rq rs = MakePipe -> lstrip_crlf (b_data b) = y :: ys ->
+  exists c' o, handle_send Req Resp sh ch ic af tr true c b (SEndOfMessage sid last half)
+                 = Finished c' (mkBuf [] 0 0) (o ++ [OData sid (y :: ys)]) /\
+               c_state c' = Passthrough /\ (o = [] \/ o = [OSendLastChunk]).
+Proof. intros. eapply upgrade_end_of_message_flushes; eassumption. Qed.
+Print Assumptions C02_upgrade_end_of_message_flushes.
+
 (* ---- witnesses: Req = Resp = N, every head is accepted with Content-Length 0 *)
 Definition w_sh : list bytes -> head_result N := fun _ => Accepted 0%N (Some 0%Z).
 Definition w_ch : N -> list bytes -> head_result N := fun _ _ => Accepted 0%N (Some 0%Z).
